@@ -60,92 +60,92 @@ require (
 )
 
 replace (
-	go.opentelemetry.io/collector => /tmp/seedrepo.3886
-	go.opentelemetry.io/collector/client => /tmp/seedrepo.3886/client
-	go.opentelemetry.io/collector/cmd/builder => /tmp/seedrepo.3886/cmd/builder
-	go.opentelemetry.io/collector/cmd/mdatagen => /tmp/seedrepo.3886/cmd/mdatagen
-	go.opentelemetry.io/collector/cmd/otelcorecol => /tmp/seedrepo.3886/cmd/otelcorecol
-	go.opentelemetry.io/collector/component => /tmp/seedrepo.3886/component
-	go.opentelemetry.io/collector/component/componentstatus => /tmp/seedrepo.3886/component/componentstatus
-	go.opentelemetry.io/collector/component/componenttest => /tmp/seedrepo.3886/component/componenttest
-	go.opentelemetry.io/collector/config/configauth => /tmp/seedrepo.3886/config/configauth
-	go.opentelemetry.io/collector/config/configcompression => /tmp/seedrepo.3886/config/configcompression
-	go.opentelemetry.io/collector/config/configgrpc => /tmp/seedrepo.3886/config/configgrpc
-	go.opentelemetry.io/collector/config/confighttp => /tmp/seedrepo.3886/config/confighttp
-	go.opentelemetry.io/collector/config/confighttp/xconfighttp => /tmp/seedrepo.3886/config/confighttp/xconfighttp
-	go.opentelemetry.io/collector/config/configmiddleware => /tmp/seedrepo.3886/config/configmiddleware
-	go.opentelemetry.io/collector/config/confignet => /tmp/seedrepo.3886/config/confignet
-	go.opentelemetry.io/collector/config/configopaque => /tmp/seedrepo.3886/config/configopaque
-	go.opentelemetry.io/collector/config/configretry => /tmp/seedrepo.3886/config/configretry
-	go.opentelemetry.io/collector/config/configtelemetry => /tmp/seedrepo.3886/config/configtelemetry
-	go.opentelemetry.io/collector/config/configtls => /tmp/seedrepo.3886/config/configtls
-	go.opentelemetry.io/collector/confmap => /tmp/seedrepo.3886/confmap
-	go.opentelemetry.io/collector/confmap/internal/e2e => /tmp/seedrepo.3886/confmap/internal/e2e
-	go.opentelemetry.io/collector/confmap/provider/envprovider => /tmp/seedrepo.3886/confmap/provider/envprovider
-	go.opentelemetry.io/collector/confmap/provider/fileprovider => /tmp/seedrepo.3886/confmap/provider/fileprovider
-	go.opentelemetry.io/collector/confmap/provider/httpprovider => /tmp/seedrepo.3886/confmap/provider/httpprovider
-	go.opentelemetry.io/collector/confmap/provider/httpsprovider => /tmp/seedrepo.3886/confmap/provider/httpsprovider
-	go.opentelemetry.io/collector/confmap/provider/yamlprovider => /tmp/seedrepo.3886/confmap/provider/yamlprovider
-	go.opentelemetry.io/collector/confmap/xconfmap => /tmp/seedrepo.3886/confmap/xconfmap
-	go.opentelemetry.io/collector/connector => /tmp/seedrepo.3886/connector
-	go.opentelemetry.io/collector/connector/connectortest => /tmp/seedrepo.3886/connector/connectortest
-	go.opentelemetry.io/collector/connector/forwardconnector => /tmp/seedrepo.3886/connector/forwardconnector
-	go.opentelemetry.io/collector/connector/xconnector => /tmp/seedrepo.3886/connector/xconnector
-	go.opentelemetry.io/collector/consumer => /tmp/seedrepo.3886/consumer
-	go.opentelemetry.io/collector/consumer/consumererror => /tmp/seedrepo.3886/consumer/consumererror
-	go.opentelemetry.io/collector/consumer/consumererror/xconsumererror => /tmp/seedrepo.3886/consumer/consumererror/xconsumererror
-	go.opentelemetry.io/collector/consumer/consumertest => /tmp/seedrepo.3886/consumer/consumertest
-	go.opentelemetry.io/collector/consumer/xconsumer => /tmp/seedrepo.3886/consumer/xconsumer
-	go.opentelemetry.io/collector/exporter => /tmp/seedrepo.3886/exporter
-	go.opentelemetry.io/collector/exporter/debugexporter => /tmp/seedrepo.3886/exporter/debugexporter
-	go.opentelemetry.io/collector/exporter/exporterhelper/xexporterhelper => /tmp/seedrepo.3886/exporter/exporterhelper/xexporterhelper
-	go.opentelemetry.io/collector/exporter/exportertest => /tmp/seedrepo.3886/exporter/exportertest
-	go.opentelemetry.io/collector/exporter/nopexporter => /tmp/seedrepo.3886/exporter/nopexporter
-	go.opentelemetry.io/collector/exporter/otlpexporter => /tmp/seedrepo.3886/exporter/otlpexporter
-	go.opentelemetry.io/collector/exporter/otlphttpexporter => /tmp/seedrepo.3886/exporter/otlphttpexporter
-	go.opentelemetry.io/collector/exporter/xexporter => /tmp/seedrepo.3886/exporter/xexporter
-	go.opentelemetry.io/collector/extension => /tmp/seedrepo.3886/extension
-	go.opentelemetry.io/collector/extension/extensionauth => /tmp/seedrepo.3886/extension/extensionauth
-	go.opentelemetry.io/collector/extension/extensionauth/extensionauthtest => /tmp/seedrepo.3886/extension/extensionauth/extensionauthtest
-	go.opentelemetry.io/collector/extension/extensioncapabilities => /tmp/seedrepo.3886/extension/extensioncapabilities
-	go.opentelemetry.io/collector/extension/extensionmiddleware => /tmp/seedrepo.3886/extension/extensionmiddleware
-	go.opentelemetry.io/collector/extension/extensionmiddleware/extensionmiddlewaretest => /tmp/seedrepo.3886/extension/extensionmiddleware/extensionmiddlewaretest
-	go.opentelemetry.io/collector/extension/extensiontest => /tmp/seedrepo.3886/extension/extensiontest
-	go.opentelemetry.io/collector/extension/memorylimiterextension => /tmp/seedrepo.3886/extension/memorylimiterextension
-	go.opentelemetry.io/collector/extension/xextension => /tmp/seedrepo.3886/extension/xextension
-	go.opentelemetry.io/collector/extension/zpagesextension => /tmp/seedrepo.3886/extension/zpagesextension
-	go.opentelemetry.io/collector/featuregate => /tmp/seedrepo.3886/featuregate
-	go.opentelemetry.io/collector/filter => /tmp/seedrepo.3886/filter
-	go.opentelemetry.io/collector/internal/e2e => /tmp/seedrepo.3886/internal/e2e
-	go.opentelemetry.io/collector/internal/fanoutconsumer => /tmp/seedrepo.3886/internal/fanoutconsumer
-	go.opentelemetry.io/collector/internal/memorylimiter => /tmp/seedrepo.3886/internal/memorylimiter
-	go.opentelemetry.io/collector/internal/sharedcomponent => /tmp/seedrepo.3886/internal/sharedcomponent
-	go.opentelemetry.io/collector/internal/telemetry => /tmp/seedrepo.3886/internal/telemetry
-	go.opentelemetry.io/collector/internal/tools => /tmp/seedrepo.3886/internal/tools
-	go.opentelemetry.io/collector/otelcol => /tmp/seedrepo.3886/otelcol
-	go.opentelemetry.io/collector/otelcol/otelcoltest => /tmp/seedrepo.3886/otelcol/otelcoltest
-	go.opentelemetry.io/collector/pdata => /tmp/seedrepo.3886/pdata
-	go.opentelemetry.io/collector/pdata/pprofile => /tmp/seedrepo.3886/pdata/pprofile
-	go.opentelemetry.io/collector/pdata/testdata => /tmp/seedrepo.3886/pdata/testdata
-	go.opentelemetry.io/collector/pipeline => /tmp/seedrepo.3886/pipeline
-	go.opentelemetry.io/collector/pipeline/xpipeline => /tmp/seedrepo.3886/pipeline/xpipeline
-	go.opentelemetry.io/collector/processor => /tmp/seedrepo.3886/processor
-	go.opentelemetry.io/collector/processor/batchprocessor => /tmp/seedrepo.3886/processor/batchprocessor
-	go.opentelemetry.io/collector/processor/memorylimiterprocessor => /tmp/seedrepo.3886/processor/memorylimiterprocessor
-	go.opentelemetry.io/collector/processor/processorhelper => /tmp/seedrepo.3886/processor/processorhelper
-	go.opentelemetry.io/collector/processor/processorhelper/xprocessorhelper => /tmp/seedrepo.3886/processor/processorhelper/xprocessorhelper
-	go.opentelemetry.io/collector/processor/processortest => /tmp/seedrepo.3886/processor/processortest
-	go.opentelemetry.io/collector/processor/xprocessor => /tmp/seedrepo.3886/processor/xprocessor
-	go.opentelemetry.io/collector/receiver => /tmp/seedrepo.3886/receiver
-	go.opentelemetry.io/collector/receiver/nopreceiver => /tmp/seedrepo.3886/receiver/nopreceiver
-	go.opentelemetry.io/collector/receiver/otlpreceiver => /tmp/seedrepo.3886/receiver/otlpreceiver
-	go.opentelemetry.io/collector/receiver/receiverhelper => /tmp/seedrepo.3886/receiver/receiverhelper
-	go.opentelemetry.io/collector/receiver/receivertest => /tmp/seedrepo.3886/receiver/receivertest
-	go.opentelemetry.io/collector/receiver/xreceiver => /tmp/seedrepo.3886/receiver/xreceiver
-	go.opentelemetry.io/collector/scraper => /tmp/seedrepo.3886/scraper
-	go.opentelemetry.io/collector/scraper/scraperhelper => /tmp/seedrepo.3886/scraper/scraperhelper
-	go.opentelemetry.io/collector/scraper/scrapertest => /tmp/seedrepo.3886/scraper/scrapertest
-	go.opentelemetry.io/collector/semconv => /tmp/seedrepo.3886/semconv
-	go.opentelemetry.io/collector/service => /tmp/seedrepo.3886/service
-	go.opentelemetry.io/collector/service/hostcapabilities => /tmp/seedrepo.3886/service/hostcapabilities
+	go.opentelemetry.io/collector => /repo
+	go.opentelemetry.io/collector/client => /repo/client
+	go.opentelemetry.io/collector/cmd/builder => /repo/cmd/builder
+	go.opentelemetry.io/collector/cmd/mdatagen => /repo/cmd/mdatagen
+	go.opentelemetry.io/collector/cmd/otelcorecol => /repo/cmd/otelcorecol
+	go.opentelemetry.io/collector/component => /repo/component
+	go.opentelemetry.io/collector/component/componentstatus => /repo/component/componentstatus
+	go.opentelemetry.io/collector/component/componenttest => /repo/component/componenttest
+	go.opentelemetry.io/collector/config/configauth => /repo/config/configauth
+	go.opentelemetry.io/collector/config/configcompression => /repo/config/configcompression
+	go.opentelemetry.io/collector/config/configgrpc => /repo/config/configgrpc
+	go.opentelemetry.io/collector/config/confighttp => /repo/config/confighttp
+	go.opentelemetry.io/collector/config/confighttp/xconfighttp => /repo/config/confighttp/xconfighttp
+	go.opentelemetry.io/collector/config/configmiddleware => /repo/config/configmiddleware
+	go.opentelemetry.io/collector/config/confignet => /repo/config/confignet
+	go.opentelemetry.io/collector/config/configopaque => /repo/config/configopaque
+	go.opentelemetry.io/collector/config/configretry => /repo/config/configretry
+	go.opentelemetry.io/collector/config/configtelemetry => /repo/config/configtelemetry
+	go.opentelemetry.io/collector/config/configtls => /repo/config/configtls
+	go.opentelemetry.io/collector/confmap => /repo/confmap
+	go.opentelemetry.io/collector/confmap/internal/e2e => /repo/confmap/internal/e2e
+	go.opentelemetry.io/collector/confmap/provider/envprovider => /repo/confmap/provider/envprovider
+	go.opentelemetry.io/collector/confmap/provider/fileprovider => /repo/confmap/provider/fileprovider
+	go.opentelemetry.io/collector/confmap/provider/httpprovider => /repo/confmap/provider/httpprovider
+	go.opentelemetry.io/collector/confmap/provider/httpsprovider => /repo/confmap/provider/httpsprovider
+	go.opentelemetry.io/collector/confmap/provider/yamlprovider => /repo/confmap/provider/yamlprovider
+	go.opentelemetry.io/collector/confmap/xconfmap => /repo/confmap/xconfmap
+	go.opentelemetry.io/collector/connector => /repo/connector
+	go.opentelemetry.io/collector/connector/connectortest => /repo/connector/connectortest
+	go.opentelemetry.io/collector/connector/forwardconnector => /repo/connector/forwardconnector
+	go.opentelemetry.io/collector/connector/xconnector => /repo/connector/xconnector
+	go.opentelemetry.io/collector/consumer => /repo/consumer
+	go.opentelemetry.io/collector/consumer/consumererror => /repo/consumer/consumererror
+	go.opentelemetry.io/collector/consumer/consumererror/xconsumererror => /repo/consumer/consumererror/xconsumererror
+	go.opentelemetry.io/collector/consumer/consumertest => /repo/consumer/consumertest
+	go.opentelemetry.io/collector/consumer/xconsumer => /repo/consumer/xconsumer
+	go.opentelemetry.io/collector/exporter => /repo/exporter
+	go.opentelemetry.io/collector/exporter/debugexporter => /repo/exporter/debugexporter
+	go.opentelemetry.io/collector/exporter/exporterhelper/xexporterhelper => /repo/exporter/exporterhelper/xexporterhelper
+	go.opentelemetry.io/collector/exporter/exportertest => /repo/exporter/exportertest
+	go.opentelemetry.io/collector/exporter/nopexporter => /repo/exporter/nopexporter
+	go.opentelemetry.io/collector/exporter/otlpexporter => /repo/exporter/otlpexporter
+	go.opentelemetry.io/collector/exporter/otlphttpexporter => /repo/exporter/otlphttpexporter
+	go.opentelemetry.io/collector/exporter/xexporter => /repo/exporter/xexporter
+	go.opentelemetry.io/collector/extension => /repo/extension
+	go.opentelemetry.io/collector/extension/extensionauth => /repo/extension/extensionauth
+	go.opentelemetry.io/collector/extension/extensionauth/extensionauthtest => /repo/extension/extensionauth/extensionauthtest
+	go.opentelemetry.io/collector/extension/extensioncapabilities => /repo/extension/extensioncapabilities
+	go.opentelemetry.io/collector/extension/extensionmiddleware => /repo/extension/extensionmiddleware
+	go.opentelemetry.io/collector/extension/extensionmiddleware/extensionmiddlewaretest => /repo/extension/extensionmiddleware/extensionmiddlewaretest
+	go.opentelemetry.io/collector/extension/extensiontest => /repo/extension/extensiontest
+	go.opentelemetry.io/collector/extension/memorylimiterextension => /repo/extension/memorylimiterextension
+	go.opentelemetry.io/collector/extension/xextension => /repo/extension/xextension
+	go.opentelemetry.io/collector/extension/zpagesextension => /repo/extension/zpagesextension
+	go.opentelemetry.io/collector/featuregate => /repo/featuregate
+	go.opentelemetry.io/collector/filter => /repo/filter
+	go.opentelemetry.io/collector/internal/e2e => /repo/internal/e2e
+	go.opentelemetry.io/collector/internal/fanoutconsumer => /repo/internal/fanoutconsumer
+	go.opentelemetry.io/collector/internal/memorylimiter => /repo/internal/memorylimiter
+	go.opentelemetry.io/collector/internal/sharedcomponent => /repo/internal/sharedcomponent
+	go.opentelemetry.io/collector/internal/telemetry => /repo/internal/telemetry
+	go.opentelemetry.io/collector/internal/tools => /repo/internal/tools
+	go.opentelemetry.io/collector/otelcol => /repo/otelcol
+	go.opentelemetry.io/collector/otelcol/otelcoltest => /repo/otelcol/otelcoltest
+	go.opentelemetry.io/collector/pdata => /repo/pdata
+	go.opentelemetry.io/collector/pdata/pprofile => /repo/pdata/pprofile
+	go.opentelemetry.io/collector/pdata/testdata => /repo/pdata/testdata
+	go.opentelemetry.io/collector/pipeline => /repo/pipeline
+	go.opentelemetry.io/collector/pipeline/xpipeline => /repo/pipeline/xpipeline
+	go.opentelemetry.io/collector/processor => /repo/processor
+	go.opentelemetry.io/collector/processor/batchprocessor => /repo/processor/batchprocessor
+	go.opentelemetry.io/collector/processor/memorylimiterprocessor => /repo/processor/memorylimiterprocessor
+	go.opentelemetry.io/collector/processor/processorhelper => /repo/processor/processorhelper
+	go.opentelemetry.io/collector/processor/processorhelper/xprocessorhelper => /repo/processor/processorhelper/xprocessorhelper
+	go.opentelemetry.io/collector/processor/processortest => /repo/processor/processortest
+	go.opentelemetry.io/collector/processor/xprocessor => /repo/processor/xprocessor
+	go.opentelemetry.io/collector/receiver => /repo/receiver
+	go.opentelemetry.io/collector/receiver/nopreceiver => /repo/receiver/nopreceiver
+	go.opentelemetry.io/collector/receiver/otlpreceiver => /repo/receiver/otlpreceiver
+	go.opentelemetry.io/collector/receiver/receiverhelper => /repo/receiver/receiverhelper
+	go.opentelemetry.io/collector/receiver/receivertest => /repo/receiver/receivertest
+	go.opentelemetry.io/collector/receiver/xreceiver => /repo/receiver/xreceiver
+	go.opentelemetry.io/collector/scraper => /repo/scraper
+	go.opentelemetry.io/collector/scraper/scraperhelper => /repo/scraper/scraperhelper
+	go.opentelemetry.io/collector/scraper/scrapertest => /repo/scraper/scrapertest
+	go.opentelemetry.io/collector/semconv => /repo/semconv
+	go.opentelemetry.io/collector/service => /repo/service
+	go.opentelemetry.io/collector/service/hostcapabilities => /repo/service/hostcapabilities
 )
